@@ -17,5 +17,20 @@ was strengthened (what was added is in the last column) and the change re-run. E
 was reported on every run.
 
 '''
-s = s[:i] + head + intro + tbl
+import json, glob, os
+tot = miss = notown = nowhere = 0
+for f in sorted(glob.glob('/verif/seeded/*/meta.json')):
+    m = json.load(open(f)); tot += 1
+    own = m['caught_by'].get(m['property'], '')
+    neg = lambda t: t.lower().startswith(('not caught', 'not reported', 'missed and'))
+    if m.get('initially_missed'): miss += 1
+    if own == '' or neg(own):
+        notown += 1
+        if all(neg(v) for v in m['caught_by'].values()): nowhere += 1
+summary = (f"**Summary.** {tot} changes kept; {tot - miss} were reported by the checks as they stood at the time, {miss} were "
+           f"missed at first (by the check of the property they were written against). After strengthening, {tot - notown} are reported by "
+           f"the check of their own property, {notown - nowhere} more only by the check of a neighbouring property (stated in the row), "
+           f"and {nowhere} by no check (the row says why). `seeded/RESULTS.md` is the detection matrix of the last `bin/seedall` runs; "
+           f"`seeded/REJECTED.md` lists candidates that were not kept because the pinned suite fails with them.\n\n")
+s = s[:i] + head + intro + summary + tbl
 open(p, 'w').write(s)
